@@ -98,18 +98,22 @@ Qed.
 
 (* ---------- precision 0: round_to_precision is exactly f64::round / ceil / floor ---------- *)
 
+Lemma valid_mantissa_bound s m e : valid_binary prec emax (S754_finite s m e) = true -> Zpos m < 2 ^ 53.
+Proof.
+  intros Hv. cbn [valid_binary] in Hv. unfold bounded, canonical_mantissa in Hv.
+  apply andb_true_iff in Hv. destruct Hv as [Hc _]. apply Zeq_bool_eq in Hc.
+  unfold SpecFloat.fexp, SpecFloat.emin in Hc.
+  pose proof (digits2_pos_bounds m) as [_ Hhi].
+  assert (Zpos (digits2_pos m) <= 53) by (unfold prec, emax in Hc; lia).
+  eapply Z.lt_le_trans; [exact Hhi|]. apply Z.pow_le_mono_r; lia.
+Qed.
+
 Lemma f_rint_valid k x : valid_binary prec emax x = true -> valid_binary prec emax (f_rint k x) = true.
 Proof.
   intros Hv. destruct x as [s|s| |s m e]; try exact Hv.
   destruct (Z.leb_spec 0 e) as [He|He].
   - rewrite f_rint_integer by exact He. exact Hv.
-  - assert (Hm : Zpos m < 2 ^ 53).
-    { cbn [valid_binary] in Hv. unfold bounded, canonical_mantissa in Hv.
-      apply andb_true_iff in Hv. destruct Hv as [Hc _]. apply Zeq_bool_eq in Hc.
-      unfold SpecFloat.fexp, SpecFloat.emin in Hc.
-      pose proof (digits2_pos_bounds m) as [_ Hhi].
-      assert (Zpos (digits2_pos m) <= 53) by (unfold prec, emax in Hc; lia).
-      eapply Z.lt_le_trans; [exact Hhi|]. apply Z.pow_le_mono_r; lia. }
+  - pose proof (valid_mantissa_bound s m e Hv) as Hm.
     destruct (f_rint_spec k s m e He Hm) as (n & _ & Hvalid & _). exact Hvalid.
 Qed.
 
@@ -140,6 +144,42 @@ Section PrecisionZero.
     pose proof (f_rint_not_nan k x Hn) as H. destruct (f_rint k x); try discriminate; split; reflexivity.
   Qed.
 End PrecisionZero.
+
+(* precision 0 (default or explicit), everything the property says, for every libm with powf(10, 0) = 1 *)
+Theorem round_p0_full (pow10 : Z -> spec_float) (k : rkind) (x : spec_float) :
+  pow10 0 = f_one -> valid_binary 53 1024 x = true -> f_is_finite x = true ->
+  round_fn pow10 k (VFloat x) None = ROk (VFloat (f_rint k x))
+  /\ round_fn pow10 k (VFloat x) (Some (VInt 0)) = ROk (VFloat (f_rint k x))
+  /\ f_is_finite (f_rint k x) = true
+  /\ valid_binary 53 1024 (f_rint k x) = true
+  /\ match x with
+     | S754_finite s m e =>
+         if 0 <=? e then f_rint k x = x
+         else exists n, f_int_value (f_rint k x) = Some n
+                /\ let M := cond_Zopp s (Zpos m) in
+                   let D := 2 ^ (- e) in
+                   match k with
+                   | KFloor => n * D <= M < (n + 1) * D
+                   | KCeil => (n - 1) * D < M <= n * D
+                   | KRound => 2 * Z.abs (M - n * D) <= D /\ (2 * Z.abs (M - n * D) = D -> Z.abs M < Z.abs (n * D))
+                   end
+     | _ => f_rint k x = x
+     end.
+Proof.
+  intros H0 Hv Hf.
+  assert (Hn : f_is_nan x = false) by (destruct x; try discriminate; reflexivity).
+  destruct (round_fn_0 pow10 H0 k x Hv Hn) as [R1 R2].
+  split; [exact R1|]. split; [exact R2|].
+  pose proof (f_rint_valid k x Hv) as Hv'.
+  destruct x as [s|s| |s m e]; try discriminate.
+  - repeat split; auto.
+  - destruct (Z.leb_spec 0 e) as [He|He].
+    + rewrite (f_rint_integer k s m e He). repeat split; auto.
+    + pose proof (valid_mantissa_bound s m e Hv) as Hm.
+      destruct (f_rint_spec k s m e He Hm) as (n & Hval & _ & Hlaw).
+      split; [|split; [exact Hv'|exists n; split; [exact Hval|exact Hlaw]]].
+      destruct (f_rint k (S754_finite s m e)); try discriminate; reflexivity.
+Qed.
 
 (* ---------- to_int (to_float z) = z up to 2^53 ---------- *)
 
